@@ -72,6 +72,8 @@ type c18Step struct {
 	Sums    []c18Sum  `json:"sums"`
 	SumC    []c18Sum  `json:"sumc"`
 	Cnts    []c18Cnt  `json:"cnts"`
+	Cnts2   []c18Cnt  `json:"cnts2"` // the second global-count schema (same limit, same acquires)
+	Other   int       `json:"other"` // instance entries on flow controls nobody acquires on
 }
 
 func c18Cluster(name string, amax, cmax int32) *proxyv1alpha1.UpstreamCluster {
@@ -83,10 +85,21 @@ func c18Cluster(name string, amax, cmax int32) *proxyv1alpha1.UpstreamCluster {
 			},
 		}
 	}
+	tb := func(n string) proxyv1alpha1.FlowControlSchema {
+		return proxyv1alpha1.FlowControlSchema{
+			Name: n,
+			FlowControlSchemaConfiguration: proxyv1alpha1.FlowControlSchemaConfiguration{
+				GlobalTokenBucket: &proxyv1alpha1.TokenBucketFlowControlSchema{QPS: 100, Burst: 100},
+			},
+		}
+	}
 	return &proxyv1alpha1.UpstreamCluster{
 		ObjectMeta: metav1.ObjectMeta{Name: name},
 		Spec: proxyv1alpha1.UpstreamClusterSpec{
-			FlowControl: proxyv1alpha1.FlowControl{Schemas: []proxyv1alpha1.FlowControlSchema{mk("alloc", amax), mk("count", cmax)}},
+			// both kinds of global flow control on every upstream: three max-in-flight schemas (one used with the
+			// allocate strategy, two with the count strategy) and two token buckets
+			FlowControl: proxyv1alpha1.FlowControl{Schemas: []proxyv1alpha1.FlowControlSchema{
+				tb("tb1"), mk("alloc", amax), mk("count", cmax), tb("tb2"), mk("count2", cmax)}},
 		},
 	}
 }
@@ -203,7 +216,8 @@ func runC18(raw json.RawMessage) interface{} {
 				Spec: proxyv1alpha1.RateLimitAcquireSpec{
 					Instance:  i,
 					RequestID: reqID,
-					Requests:  []proxyv1alpha1.RateLimitAcquireRequest{{FlowControl: "count", Tokens: op.N}},
+					Requests: []proxyv1alpha1.RateLimitAcquireRequest{
+						{FlowControl: "count", Tokens: op.N}, {FlowControl: "count2", Tokens: op.N}},
 				},
 			}
 			out, err := rig.rl.DoAcquire(u, acq)
@@ -280,27 +294,37 @@ func runC18(raw json.RawMessage) interface{} {
 		sort.Slice(st.Sums, func(a, b int) bool { return st.Sums[a].U.S() < st.Sums[b].U.S() })
 		sort.Slice(st.SumC, func(a, b int) bool { return st.SumC[a].U.S() < st.SumC[b].U.S() })
 		sort.Strings(ups)
-		st.Cnts = []c18Cnt{}
+		st.Cnts, st.Cnts2 = []c18Cnt{}, []c18Cnt{}
 		store := rig.v.Stores()[0]
 		for _, un := range ups {
-			fc, err := store.GetFlowControl(un, "count")
-			if err != nil {
-				continue
+			for _, schema := range []string{"count", "count2", "alloc", "tb1", "tb2"} {
+				fc, err := store.GetFlowControl(un, schema)
+				if err != nil {
+					continue
+				}
+				m, total, ok := flowcontrol.VerifMaxInflightState(fc)
+				if !ok {
+					continue
+				}
+				if schema == "alloc" {
+					st.Other += len(m)
+					continue
+				}
+				cn := c18Cnt{U: toB(un), Entries: []c18En{}, Total: total}
+				names := []string{}
+				for k := range m {
+					names = append(names, k)
+				}
+				sort.Strings(names)
+				for _, k := range names {
+					cn.Entries = append(cn.Entries, c18En{toB(k), m[k]})
+				}
+				if schema == "count" {
+					st.Cnts = append(st.Cnts, cn)
+				} else {
+					st.Cnts2 = append(st.Cnts2, cn)
+				}
 			}
-			m, total, ok := flowcontrol.VerifMaxInflightState(fc)
-			if !ok {
-				continue
-			}
-			cn := c18Cnt{U: toB(un), Entries: []c18En{}, Total: total}
-			names := []string{}
-			for k := range m {
-				names = append(names, k)
-			}
-			sort.Strings(names)
-			for _, k := range names {
-				cn.Entries = append(cn.Entries, c18En{toB(k), m[k]})
-			}
-			st.Cnts = append(st.Cnts, cn)
 		}
 		steps = append(steps, st)
 	}
